@@ -46,7 +46,7 @@ def tlc_jobs(ctx, quick):
                      fu.fm_env(sp, 1, 'all', 'prox', xset='quick'), 1))
         if quick:
             exp('d0-' + sp, sp, 0, 'all')
-            exp('d1-' + sp, sp, 1, ROT[sp])
+            exp('d1-' + sp, sp, 1, ROT[sp], xs='quick' if ROT[sp] in ('smooth', 'kl', 'core') else 'tiny')
         else:
             for g in LAWGROUPS + (['core'] if sp == 'pspace1' else []):
                 exp('d1-%s-%s' % (sp, g), sp, 1, g)
@@ -110,6 +110,9 @@ def replay_program(arg):
     for variant in range(per_case):
         try:
             built[variant] = fu.Built(sp, f, variant)
+        except (NotImplementedError, fu.Unbuildable):
+            res['noprox'] += 1     # e.g. a convex conjugate the class does not offer
+            return res
         except Exception as e:     # the program is well-formed: construction must work
             res['viol'].append((fu.signature(sp, f, 'construction-raises', {'error': type(e).__name__}),
                                 {'stage': 'replay', 'sp': sp, 'f': f, 'error': str(e)[:200]}))
@@ -138,6 +141,8 @@ def replay_program(arg):
                 extra = dict(extra)
                 extra['sigma'] = 'scalar' if case['sk'] == 's' else 'vector'
                 res['viol'].append((fu.signature(sp, f, clause, extra), detail))
+            if info.get('rounding_infeasible'):
+                res['rounding'] = res.get('rounding', 0) + 1
             if not info['err']:
                 if zstar is not None and ev['p'] != case['z'] and info.get('better') is None and ev['finite']:
                     res['drift'].append('p differs from the certified argmin although no probe is better: %s on %s'
@@ -221,42 +226,173 @@ def driver_points(N, rnd, k):
     return fixed, rand
 
 
+FINITE_LEAVES = {'L1', 'L2', 'L2sq', 'Linf', 'GroupL1', 'Huber', 'Const', 'Quad'}
+
+
+def _lam_g(B):
+    """(lam, g) of a program  [Conj(] LScale(lam, [Translate(] leaf [, g)] ) [)]  - the options of a proximal factory"""
+    f = B.f['args'][0] if B.f['op'] == 'Conj' else B.f
+    lam = float(fu.fr(f['s']))
+    inner = f['args'][0]
+    if inner['op'] == 'Translate':
+        return lam, B.el(fu.frv(inner['u']))
+    if inner['op'] == 'KL':
+        return lam, B.el(fu.frv(inner['v']))
+    return lam, None
+
+
+FACTORIES = {
+    'proximal_l1': lambda B: fu.S.proximal_l1(B.space, *_lam_g(B)),
+    'proximal_l2': lambda B: fu.S.proximal_l2(B.space, *_lam_g(B)),
+    'proximal_l2_squared': lambda B: fu.S.proximal_l2_squared(B.space, *_lam_g(B)),
+    'proximal_l1_l2': lambda B: fu.S.proximal_l1_l2(B.space, *_lam_g(B)),
+    'proximal_convex_conj_l1': lambda B: fu.S.proximal_convex_conj_l1(B.space, *_lam_g(B)),
+    'proximal_convex_conj_l2': lambda B: fu.S.proximal_convex_conj_l2(B.space, *_lam_g(B)),
+    'proximal_convex_conj_l2_squared': lambda B: fu.S.proximal_convex_conj_l2_squared(B.space, *_lam_g(B)),
+    'proximal_convex_conj_l1_l2': lambda B: fu.S.proximal_convex_conj_l1_l2(B.space, *_lam_g(B)),
+    'proximal_convex_conj_kl': lambda B: fu.S.proximal_convex_conj_kl(B.space, *_lam_g(B)),
+}
+VEC_SIGMA_FACTORIES = {'proximal_l1', 'proximal_l2_squared', 'proximal_convex_conj_l1',
+                       'proximal_convex_conj_l2_squared'}        # documented: sigma may be a space element
+
+
+def factory_programs(kind, m, N):
+    """(factory name, program) for every closed-form factory with options lam / g (with and without g)."""
+    gv = [Fraction(1) if i % 2 == 0 else Fraction(-1, 2) for i in range(N)]
+    pv = [Fraction(1) if i % 2 == 0 else Fraction(2) for i in range(N)]
+    out = []
+    for lam in [(2, 1), (1, 2)]:
+        for withg in (True, False):
+            def wrap(leaf):
+                inner = mkf('Translate', u=gv, args=[leaf]) if withg else leaf
+                return mkf('LScale', lam, args=[inner])
+            out.append(('proximal_l1', wrap(mkf('L1'))))
+            out.append(('proximal_l2', wrap(mkf('L2'))))
+            out.append(('proximal_l2_squared', wrap(mkf('L2sq'))))
+            out.append(('proximal_convex_conj_l1', mkf('Conj', args=[wrap(mkf('L1'))])))
+            out.append(('proximal_convex_conj_l2', mkf('Conj', args=[wrap(mkf('L2'))])))
+            out.append(('proximal_convex_conj_l2_squared', mkf('Conj', args=[wrap(mkf('L2sq'))])))
+            if kind == 'power':
+                out.append(('proximal_l1_l2', wrap(mkf('GroupL1'))))
+                out.append(('proximal_convex_conj_l1_l2', mkf('Conj', args=[wrap(mkf('GroupL1'))])))
+        if kind != 'pspace':
+            out.append(('proximal_convex_conj_kl', mkf('Conj', args=[mkf('LScale', lam, args=[mkf('KL', v=pv)])])))
+    return out
+
+
+def opaque_recipes():
+    """Functionals with a proximal that the specification has no semantics for: literal clauses only."""
+    import odl
+    S = fu.S
+    out = []
+    M = odl.ProductSpace(odl.ProductSpace(odl.rn(2), 2), 2)
+    for e in (1, 2, np.inf):
+        out.append(('NuclearNorm', 'singular_vector_exp=%s' % e, lambda e=e: fu.Opaque(
+            'NuclearNorm', 'singular_vector_exp=%s' % e, M, S.NuclearNorm(M, 1, e))))
+    for e in (1, 2, np.inf):
+        out.append(('IndicatorNuclearNormUnitBall', 'singular_vector_exp=%s' % e, lambda e=e: fu.Opaque(
+            'IndicatorNuclearNormUnitBall', 'singular_vector_exp=%s' % e, M,
+            S.IndicatorNuclearNormUnitBall(M, np.inf, e), indicator=True)))
+    for nm, mk in [('rn', lambda: odl.rn(3)), ('discr', lambda: odl.uniform_discr(0, 6, 3))]:
+        out.append(('KullbackLeiblerCrossEntropy', nm, lambda mk=mk: (lambda X: fu.Opaque(
+            'KullbackLeiblerCrossEntropy', 'prior', X, S.KullbackLeiblerCrossEntropy(X, prior=X.element([1, 2, 0.5]))))(mk())))
+        out.append(('KullbackLeiblerCrossEntropyConvexConj', nm, lambda mk=mk: (lambda X: fu.Opaque(
+            'KullbackLeiblerCrossEntropyConvexConj', 'prior', X,
+            S.KullbackLeiblerCrossEntropy(X, prior=X.element([1, 2, 0.5])).convex_conj))(mk())))
+
+    def comp():
+        X = odl.rn(2)
+        R = odl.MatrixOperator(np.array([[0.6, 0.8], [-0.8, 0.6]]), domain=X, range=X)     # R R* = I
+        g = 2 * S.L1Norm(X)
+        return fu.Opaque('proximal_composition', 'rotation', X, g * R,
+                         factory=S.proximal_composition(g.proximal, R, 1.0))
+    out.append(('proximal_composition', 'rotation', comp))
+    return out
+
+
+def opaque_program(arg):
+    idx, seed, nrand = arg
+    name, option, mk = opaque_recipes()[idx]
+    res = {'events': [], 'viol': [], 'counts': [], 'classes': set(), 'noprox': 0}
+    B = mk()
+    res['classes'] = fu.class_names(B.func) | {name}
+    rnd = _rnd(name + option, seed)
+    N = B.N
+    pos = name.startswith('KullbackLeiblerCrossEntropy') and not name.endswith('Conj')
+    fixed, rand = driver_points(N, rnd, nrand)
+    sp = {'kind': option, 'm': 1, 'n': N, 'W': []}
+    for xi, xv in enumerate(fixed + rand):
+        if pos:
+            xv = [abs(v) + Fraction(1, 4) for v in xv]
+        for sg in ([Fraction(1, 2), Fraction(2)] if xi < len(fixed) else [Fraction(1)]):
+            sig = [fu.qj(sg)] * N
+            ev, info = fu.observe_prox(B, sig, 's', xv, None, rnd, style=0, want_idem=B.indicator)
+            if ev is None:
+                res['noprox'] += 1
+                return res
+            ev['k'] = 'probe'
+            ev['isind'] = 1 if B.indicator else 0
+            ev['tag'] = 'driver'
+            detail = {'stage': 'opaque', 'recipe': idx, 'name': name, 'option': option, 'sp': B.sp, 'f': B.f, 'sig': sig,
+                      'sk': 's', 'x': [fu.qj(Fraction(v)) for v in xv],
+                      'observed': {'p': info.get('p'), 'Fp': info.get('Fp'), 'better': info.get('better'),
+                                   'err': info['err']}}
+            res['counts'].append(([name, option, sig, detail['x']], True))
+            for clause, extra in judge(B, ev, info, None, sp, B.f, 's'):
+                sigd = {'leaf': name, 'ops': name, 'option': option, 'space': 'opaque', 'clause': clause}
+                sigd.update(extra)
+                res['viol'].append((sigd, detail))
+            if not info['err']:
+                res['events'].append((ev, detail))
+    return res
+
+
 def driver_program(arg):
     """All events of one driver program (worker)."""
-    spd, f, seed, nrand = arg
+    spd, f, seed, nrand = arg[:4]
+    fname = arg[4] if len(arg) > 4 else None
     kind, m, n, W = spd
     sp = fu.sp_desc(kind, m, n, W)
     N = m * n
     rnd = _rnd(json.dumps(f, sort_keys=True) + kind + str(N), seed)
     res = {'events': [], 'viol': [], 'counts': [], 'classes': set(), 'noprox': 0}
     try:
-        B = fu.Built(sp, f, 0)
+        B = fu.Built(sp, f, 0, factory=FACTORIES[fname] if fname else None)
+    except (NotImplementedError, fu.Unbuildable):
+        res['noprox'] += 1
+        return res
     except Exception as e:
         res['viol'].append((fu.signature(sp, f, 'construction-raises', {'error': type(e).__name__}),
-                            {'stage': 'driver', 'sp': sp, 'f': f, 'error': str(e)[:200]}))
+                            {'stage': 'driver', 'sp': sp, 'f': f, 'error': str(e)[:200], 'factory': fname}))
         return res
     res['classes'] = fu.class_names(B.func)
     fixed, rand = driver_points(N, rnd, nrand)
-    klish = any(o in ('KL', 'KLcc') for o in fu.ops_of(f))
+    vecsig = [fu.qj(Fraction(1, 2) if i % 2 == 0 else Fraction(2)) for i in range(N)]
     for xi, xv in enumerate(fixed + rand):
         if xi < len(fixed):
             sgs = [Fraction(1, 2), Fraction(2)] if nrand > 4 else [[Fraction(1, 2), Fraction(2)][xi % 2]]
         else:
             sgs = [rnd.choice([Fraction(1, 4), Fraction(1, 2), 1, Fraction(3, 2), 2, 3])]
-        for sg in sgs:
-            sig = [fu.qj(sg)] * N
-            ev, info = fu.observe_prox(B, sig, 's', xv, None, rnd, style=xi % 3, want_idem=True)
+        sigs = [([fu.qj(sg)] * N, 's') for sg in sgs]
+        if fname in VEC_SIGMA_FACTORIES and xi < len(fixed) and xi % 2 == 0:
+            sigs.append((vecsig, 'v'))
+        for sig, sk in sigs:
+            ev, info = fu.observe_prox(B, sig, sk, xv, None, rnd, style=xi % 3, want_idem=True)
             if ev is None:
                 res['noprox'] += 1
                 return res
             ev['tag'] = 'driver'
-            detail = {'stage': 'driver', 'sp': sp, 'f': f, 'sig': sig, 'sk': 's', 'x': [fu.qj(Fraction(v)) for v in xv],
+            detail = {'stage': 'driver', 'sp': sp, 'f': f, 'sig': sig, 'sk': sk, 'x': [fu.qj(Fraction(v)) for v in xv],
+                      'factory': fname,
                       'observed': {'p': info.get('p'), 'Fp': info.get('Fp'), 'better': info.get('better'),
                                    'err': info['err']}}
-            res['counts'].append(([f, kind, N, sig, detail['x']], True))
-            for clause, extra in judge(B, ev, info, None, sp, f, 's'):
+            res['counts'].append(([f, kind, N, sig, detail['x'], fname], True))
+            for clause, extra in judge(B, ev, info, None, sp, f, sk):
                 extra = dict(extra)
-                extra['sigma'] = 'scalar'
+                extra['sigma'] = 'scalar' if sk == 's' else 'vector'
+                if fname:
+                    extra['factory'] = fname
+                    extra['option_g'] = 'yes' if _lam_g(B)[1] is not None else 'no'
                 res['viol'].append((fu.signature(sp, f, clause, extra), detail))
             if not info['err']:
                 res['events'].append((ev, detail))
@@ -319,16 +455,23 @@ def run(ctx):
                 rules = driver_rules(N, drnd)
                 picks = rules if not quick else [rules[0]] + drnd.sample(rules[1:], 2)
                 for rule in picks:
-                    dargs.append((spd, rule(leaf), ctx.seed, 2 if quick else 8))
+                    prog = rule(leaf)
+                    if prog['op'] == 'Bregman' and fu.first_leaf(prog) not in FINITE_LEAVES:
+                        continue           # the reference point of a Bregman distance must lie in dom f
+                    dargs.append((spd, prog, ctx.seed, 2 if quick else 8))
+            for fname, prog in factory_programs(kind, m, N):
+                if kind in ('rn', 'discr', 'power') and (not quick or n <= 3):
+                    dargs.append((spd, prog, ctx.seed, 2 if quick else 8, fname))
         douts = pool.map(driver_program, dargs, chunksize=4)
+        douts += pool.map(opaque_program, [(i, ctx.seed, 2 if quick else 10) for i in range(len(opaque_recipes()))])
     stage['replay_and_driver'] = round(time.time() - t0 - stage['tlc_model_export'], 1)
     events, details = [], []
     classes = set()
-    dropped = noprox = 0
+    dropped = noprox = rounding = 0
     replayed_fams = set()
     for o in outs + douts:
         for sig, det in o['viol']:
-            ctx.violation(sig, det)
+            fu.report(ctx, sig, det)
             replayed_fams.add((sig['leaf'], sig['clause']))
         for key, nt in o['counts']:
             ctx.count(key, nt)
@@ -339,14 +482,17 @@ def run(ctx):
         classes |= o['classes']
         dropped += o.get('dropped', 0)
         noprox += o['noprox']
+        rounding += o.get('rounding', 0)
         for d in o.get('drift', []):
-            ctx.drift_note(d)
+            if d not in ctx.drift:
+                ctx.drift_note(d)
         for s in o.get('samples', []):
             if len(ctx.samples) < 5 and (len(ctx.samples) == 0 or s['program'] != ctx.samples[-1]['program']):
                 ctx.sample(s)
     ctx.traces += sum(len(o['counts']) for o in outs)
     ctx.extra['cases_dropped_prox_not_on_lattice'] = dropped
     ctx.extra['programs_without_proximal'] = noprox
+    ctx.extra['f(p)_infinite_only_by_rounding'] = rounding
     ctx.extra['driver_programs'] = len(dargs)
 
     # ---- trace validation by TLC
@@ -359,18 +505,26 @@ def run(ctx):
         f = det['f']
         for cl in clauses:
             if cl == 'value':
-                if 'value' in clauses:
-                    ctx.drift_note('f_real differs from Val on a probe (C09 clause): %s' % fu.shape(f))
+                msg = 'f_real differs from Val on a probe (C09 clause): %s' % fu.shape(f)
+                if msg not in ctx.drift:
+                    ctx.drift_note(msg)
                 continue
             if cl == 'not-the-minimiser(subgradient)' and 'value' in clauses:
                 continue          # the implementation's f is not the reference f here: no verdict from the certificate
             nrej += 1
-            extra = {'sigma': 'scalar' if ev.get('sk', 's') == 's' else 'vector'} if ev['k'] == 'prox' else {}
+            extra = {'sigma': 'scalar' if ev.get('sk', 's') == 's' else 'vector'} if ev['k'] in ('prox', 'probe') else {}
             d = dict(det)
             d['stage'] = 'trace:' + det['stage']
             d['event'] = ev
             d['tlc_clauses'] = clauses
-            ctx.violation(fu.signature(det['sp'], f, cl, extra), d)
+            if det['stage'] == 'opaque':
+                sigd = {'leaf': det['name'], 'ops': det['name'], 'option': det['option'], 'space': 'opaque', 'clause': cl}
+                sigd.update(extra)
+                fu.report(ctx, sigd, d)
+                continue
+            if det.get('factory'):
+                extra['factory'] = det['factory']
+            fu.report(ctx, fu.signature(det['sp'], f, cl, extra), d)
     ctx.traces += sum(1 for e in events if e.get('tag') == 'driver')
     ctx.extra['trace_events_validated_by_tlc'] = len(events)
     ctx.extra['trace_events_rejected_by_tlc'] = len(fails)
